@@ -890,19 +890,31 @@ class Network:
             }
         )
 
-        # Send the connect to peer message
-        await self.server_connection.send_message(
-            ConnectToPeer.Request(ticket, username, typ))
+        try:
+            # Send the connect to peer message
+            await self.server_connection.send_message(
+                ConnectToPeer.Request(ticket, username, typ))
 
-        futures = (expected_connection_future, cannot_connect_future)
-        done, pending = await asyncio.wait(
-            futures,
-            timeout=PEER_INDIRECT_CONNECT_TIMEOUT,
-            return_when=asyncio.FIRST_COMPLETED
-        )
+            futures = (expected_connection_future, cannot_connect_future)
+            done, pending = await asyncio.wait(
+                futures,
+                timeout=PEER_INDIRECT_CONNECT_TIMEOUT,
+                return_when=asyncio.FIRST_COMPLETED
+            )
 
-        # Whatever happens here, we can cancel all pending futures
-        [fut.cancel() for fut in pending]
+        except asyncio.CancelledError:
+            # The attempt got cancelled (the other attempt won the race or the
+            # request was cancelled). If the peer connected in the meantime
+            # nobody is going to use that connection
+            if expected_connection_future.done() and not expected_connection_future.cancelled():
+                await expected_connection_future.result().disconnect(CloseReason.REQUESTED)
+            raise
+
+        finally:
+            # Whatever happens here (also failure to send the request or
+            # cancellation), nobody waits for these futures anymore
+            expected_connection_future.cancel()
+            cannot_connect_future.cancel()
 
         # `done` will be empty in case of timeout
         if not done:
@@ -1157,7 +1169,12 @@ class Network:
                 await self._event_bus.emit(
                     PeerInitializedEvent(connection, requested=True))
 
-                connection_future.set_result(connection)
+                if connection_future.done():
+                    # The request stopped waiting (cancelled, timed out) while
+                    # the event was being handled
+                    await connection.disconnect(CloseReason.REQUESTED)
+                else:
+                    connection_future.set_result(connection)
 
         else:
             logger.warning(
